@@ -173,7 +173,7 @@ def classify_loops(run, f, t, ctxinfo, kmax, counts):
                 counts["L2"] += 1
                 return
             # L4 Euclid: while b != 0 { r = a rem b; a = b; b = r }
-            e = M(("if", ("op", "ne", "i64", ("var", "?b"), ("lit", "0", "i64")), "?body", ("break",)), body)
+            e = M(("if", ("op", "eq", "i64", ("var", "?b"), ("lit", "0", "i64")), ("break",), "?body"), body)
             if e is not None:
                 bb = e["?body"]
                 e2 = M(("seq", ("let", "?r", ("call", "?rem", ("var", "?a"), ("var", e["?b"]))), ("set", ("var", "?a"), "_"), ("set", ("var", e["?b"]), ("var", "?r"))), bb) or \
